@@ -378,16 +378,31 @@ mutual
     | fuel+1, pfx, typeId, _ :: rest => calcFields c fuel pfx typeId rest
 end
 
-def calcFuel (q : Query) : Nat := 4 * walkFuel q + 16
+mutual
+  def selSize : Sel → Nat
+    | .field _ _ sub => selsSize sub + 1
+    | .inline _ sub => selsSize sub + 1
+    | _ => 1
+  def selsSize : List Sel → Nat
+    | [] => 0
+    | x :: xs => selSize x + selsSize xs
+end
+
+/-- every call of the `calc*` block consumes one unit, whether it descends or walks along a list:
+    a call chain is at most (nesting depth) × (longest selection list + most variants) long -/
+def calcFuel (s : Schema) (q : Query) : Nat :=
+  let total := (q.fragments.map (fun f => selsSize f.sels) ++ q.operations.map (fun o => selsSize o.sels)).foldl (· + ·) 0
+  let maxUnion := (s.unions.map (fun u => u.variants.length)).foldl max 0
+  walkFuel q * (total + s.objects.length + maxUnion + 4) + 16
 
 /-- `render_response_data_fields(..).render(..)` -/
 def responseItems (c : Ctx) (op : ROperation) : Outcome (List Item) :=
-  calcSelection c (calcFuel c.q) "ResponseData" (c.cs.camel op.name) (.object op.objectId) op.sels
+  calcSelection c (calcFuel c.s c.q) "ResponseData" (c.cs.camel op.name) (.object op.objectId) op.sels
 
 /-- `render_fragment(..).render(..)` -/
 def fragmentItems (c : Ctx) (fid : Nat) : Outcome (List Item) := do
   let f ← c.q.getFragment fid
-  calcSelection c (calcFuel c.q) f.name (c.cs.camel f.name) f.on f.sels
+  calcSelection c (calcFuel c.s c.q) f.name (c.cs.camel f.name) f.on f.sels
 
 /-! ### enums (`codegen/enums.rs`) -/
 
